@@ -238,7 +238,14 @@ pub fn ctx_of(tid: u32) -> (u32, u32) {
         return (h >> 8, h & 0xff);
     }
     match lookup_tid(tid) {
-        Some(o) => (o as u32, T_LAST[o].load(SeqCst)),
+        Some(o) => {
+            let v = T_LAST[o].load(SeqCst);
+            if v == 0 {
+                (o as u32, 0)
+            } else {
+                (v >> 8, v & 0xff)
+            }
+        }
         None => (0xff, 0),
     }
 }
@@ -328,10 +335,14 @@ pub fn gate(id: u32, block: usize) {
             (*core::ptr::addr_of_mut!(GT_TID))[slot] = tid;
         }
     }
+    // protocol position of the calling thread (for tagging its allocations): (thread the gate
+    // is about, gate).  A spawned thread can itself be the handle owner of another thread.
     if is_t {
-        T_LAST[ord].store(id, SeqCst);
-    } else {
+        T_LAST[ord].store((ord as u32) << 8 | id, SeqCst);
+    } else if tid == MAIN_TID.load(SeqCst) {
         H_LAST.store((ord as u32) << 8 | id, SeqCst);
+    } else if let Some(actor) = lookup_tid(tid) {
+        T_LAST[actor].store((ord as u32) << 8 | id, SeqCst);
     }
 }
 
